@@ -397,10 +397,43 @@ def m_iter_next(it, st, args, info):
     if itv[0] == 'iterpos': src = itv[1]; pos = itv[2]
     if a[0] == 'ref': it.write_addr(st, a[1], ('iterpos', src, pos + 1))
     coll = src[1] if src[0] == 'iter' else src
-    if coll[0] == 'vec':
+    if coll[0] in ('vec', 'arr'):
         if pos < len(coll[1]): return SOME(coll[1][pos])
         return NONE
     return ('iternext', src, pos)
+
+def mk_for_each(try_):
+    """Iterator::for_each / try_for_each: the closure runs on the real path state for each element (its storage effects are part of
+    the path), elements enumerated exactly like a `for` loop: a known vector completely, an unknown source through iternext(src, k)
+    with a Some/None fork, at most 3 iterations."""
+    def m(it, st, args, info):
+        itv = strip_named(it.deref(st, args[0])); f = args[1]
+        src, pos0 = (itv[1], itv[2]) if itv[0] == 'iterpos' else (itv, 0)
+        coll = src[1] if src[0] == 'iter' else src
+        results = []; work = [(st, pos0, 0)]
+        while work:
+            s, p, n = work.pop()
+            elems = []
+            if coll[0] in ('vec', 'arr'):
+                if p >= len(coll[1]): results.append((s, OK(UNIT) if try_ else UNIT)); continue
+                elems.append((s, coll[1][p]))
+            else:
+                if n >= 3: continue
+                x = ('iternext', src, p)
+                for s2, v in it.fork_variants(s, x, ['Some', 'None'], info['site']):
+                    if v == 'None': results.append((s2, OK(UNIT) if try_ else UNIT))
+                    else: elems.append((s2, variant_payload(x, 'Some')))
+            for s2, e in elems:
+                for s3, r in it.apply_callable(s2, f, [e], info['site']):
+                    if not try_: work.append((s3, p + 1, n + 1)); continue
+                    r = strip_named(it.deref(s3, r))
+                    is_opt = r[0] == 'adt' and r[1].endswith('Option')
+                    okv, errv = ('Some', 'None') if is_opt else ('Ok', 'Err')
+                    for s4, v in it.fork_variants(s3, r, [okv, errv], info['site']):
+                        if v == okv: work.append((s4, p + 1, n + 1))
+                        else: results.append((s4, r))
+        return results
+    return m
 
 def m_collect(it, st, args, info):
     return ('call', 'collect', (info.get('dest_ty') or '',), (it.snapshot(st, args[0], info['site']),))
@@ -653,6 +686,8 @@ EXACT = {
     'core::slice::<impl [T]>::iter': m_slice_iter,
     'std::iter::Iterator::next': m_iter_next,
     'std::iter::Iterator::collect': m_collect,
+    'std::iter::Iterator::for_each': mk_for_each(False),
+    'std::iter::Iterator::try_for_each': mk_for_each(True),
     'cw_storage_plus::Map::<\'a, K, T>::new': m_storage_new('Map'),
     'cw_storage_plus::Item::<\'a, T>::new': m_storage_new('Item'),
     'cw_storage_plus::Map::<\'a, K, T>::load': m_map_load,
